@@ -25,7 +25,7 @@ ASSUMPTIONS = [
     "{image}/{figure} do not read their target at parse time and must not be refused",
 ]
 
-EXT = ["colon_fence", "html_image", "html_admonition", "strikethrough", "substitution", "attrs_inline", "dollarmath"]
+EXT = ["colon_fence", "html_image", "html_admonition", "strikethrough", "substitution", "attrs_inline", "dollarmath", "deflist"]
 _OPENED = []
 _HOOKED = False
 
@@ -63,6 +63,18 @@ RAWC = {
     "footnote-html": ("raw", lambda i: f"ref[^f{i}]\n\n[^f{i}]: note with {S(i)} and a\\\n  break\n"),
     "footnote-block": ("raw", lambda i: f"ref[^g{i}]\n\n[^g{i}]: first\n\n    <div>{S(i)}</div>\n"),
     "hardbreak-para": ("rawnode", lambda i: "p\\\nq\n"),
+    # inline HTML in every inline / title position that is rendered by a nested inline pass
+    "in-emph": ("raw", lambda i: f"**bold {S(i)} end**\n"),
+    "in-link": ("raw", lambda i: f"[text {S(i)}](http://u)\n"),
+    "in-heading": ("raw", lambda i: f"# Head {S(i)}\n"),
+    "in-cell": ("raw", lambda i: f"| a | b |\n|---|---|\n| {S(i)} | c\\\n |\n"),
+    "in-deflist": ("raw", lambda i: f"Term {S(i)}\n: definition ~~s~~\n"),
+    "in-caption": ("raw", lambda i: f"```{{figure}} a.png\n\ncaption {S(i)}\n```\n"),
+    "in-admon-title": ("raw", lambda i: f"```{{admonition}} Title {S(i)}\nbody\n```\n"),
+    "in-table-caption": ("raw", lambda i: f"```{{table}} Cap {S(i)}\n\n| a |\n|---|\n| b |\n```\n"),
+    "in-listtable": ("raw", lambda i: f"```{{list-table}}\n* - {S(i)}\n  - x\n```\n"),
+    "in-refdef-title": ("esc", lambda i: f"[l][r{i}]\n\n[r{i}]: u '{S(i)}'\n"),
+    "strike-nested": ("rawnode", lambda i: "- *a ~~s~~ b*\n"),
 }
 # kind: read -> must not be read / inserted when file insertion is disabled;  noread -> never reads
 FILEC = {
